@@ -1148,5 +1148,8 @@ func specDirectWriteOK(from ast.Format, ctx ast.Context) bool {
 //@   opt track emitCallFunc emitImport
 //@   panics allowed
 //@   requires em != nil && node != nil && em.alreadyInitializedTemplatePkgs != nil
-//@   ensures[C16] old(em.isTemplate) && old(node.Tree) != nil && called("emitCallFunc") ==> !old(em.alreadyInitializedTemplatePkgs[node.Tree.Path]) && em.alreadyInitializedTemplatePkgs[old(node.Tree.Path)]
-//@   ensures[C16] old(em.isTemplate) && old(node.Tree) != nil && old(em.alreadyInitializedTemplatePkgs[node.Tree.Path]) ==> !called("emitCallFunc")
+//@   callassert[C16] em.fb.emitCallFunc 0 !em.alreadyInitializedTemplatePkgs[node.Tree.Path]
+//@   ensures[C16] called("emitCallFunc") ==> em.alreadyInitializedTemplatePkgs[old(node.Tree.Path)]
+//@   loop 0
+//@     invariant[C16] called("emitCallFunc") == (rangeIndex(0) > 0)
+//@     invariant[C16] !em.alreadyInitializedTemplatePkgs[node.Tree.Path]
